@@ -44,6 +44,20 @@ def build_model(spec, order=None):
     return Model(bl, [])
 
 
+def _f55(spec, sig, msg):
+    """repeated QR swap of an operator with factors over >= 4 decades, refused by the self-check, wrong by <= 1e-3 relative"""
+    import re
+    if not sig.startswith("swap_refused_and_wrong.") or spec.get("swap_algo") != "qr" or len(spec.get("swaps", [])) < 2:
+        return False
+    mags = [abs(complex(*t["f"])) for t in spec["terms"]] + [abs(spec.get("offset", 0.0))]
+    mags = [x for x in mags if x > 0]
+    if not mags or max(mags) / min(mags) < 1e4:
+        return False
+    m = re.search(r"err=([0-9.eE+-]+) tol=([0-9.eE+-]+)", msg)
+    # tol = 2e-7 * scale for QR swaps
+    return bool(m) and float(m.group(1)) / float(m.group(2)) * 2e-7 <= 1e-3
+
+
 class C01(Prop):
     id = "C01"
     rule = ("Hypothesis draws (model of 1-6 sites over all basis kinds, term table with duplicate / cancelling / shared-prefix / "
@@ -56,6 +70,7 @@ class C01(Prop):
 
     known_matchers = {
         "F15": lambda spec, sig, msg: sig == "swap.selfcheck_refuses_correct_swap" and spec.get("swap_algo") == "qr",
+        "F55": lambda spec, sig, msg: _f55(spec, sig, msg),
     }
 
     def budget(self, tier):
